@@ -133,7 +133,7 @@ fn main() -> Result<()> {
             }
             continue;
           }
-          "reorg" | "proto" | "sched" | "crash" => {
+          "reorg" | "proto" | "sched" | "crash" | "kill" => {
             let p = r#gen::ProtoCfg {
               ci: arg_value(&args, "--ci").map(|s| s.parse().unwrap()).unwrap_or(5000),
               si: arg_value(&args, "--si").map(|s| s.parse().unwrap()).unwrap_or(10),
@@ -155,6 +155,12 @@ fn main() -> Result<()> {
                 let more: usize = arg_value(&args, "--more").map(|s| s.parse().unwrap()).unwrap_or(5);
                 let fd: usize = arg_value(&args, "--fork-depth").map(|s| s.parse().unwrap()).unwrap_or(0);
                 r#gen::crash_case(seed + i, &tag, &p, &point, occ, pre, more, fd)
+              }
+              "kill" => {
+                let pre: usize = arg_value(&args, "--pre").map(|s| s.parse().unwrap()).unwrap_or(3);
+                let more: usize = arg_value(&args, "--more").map(|s| s.parse().unwrap()).unwrap_or(60);
+                let delays: Vec<u64> = arg_value(&args, "--delays").unwrap_or("40,80".into()).split(',').map(|s| s.parse().unwrap()).collect();
+                r#gen::kill_case(seed + i, &format!("{tag}x{i}"), &p, pre, more, &delays)
               }
               "proto" => {
                 let ops: usize = arg_value(&args, "--ops").map(|s| s.parse().unwrap()).unwrap_or(25);
